@@ -1,1 +1,350 @@
-/-! # C08 — property theorems (not built yet) -/
+import RsMatterVerif.Lemmas.Admin
+/-!
+# C08 — commissioning under the fail-safe is all-or-nothing
+
+Model: `Model/Admin.lean` (transliteration of `failsafe.rs` and of the handler glue).
+
+1. **Command gating** (`csr_accept_iff`, `root_accept_iff`, `addnoc_accept_iff`, `updnoc_accept_iff`,
+   `only_failsafe_context`, `csr_once`, `root_once`, `noc_once`): the credential commands are accepted
+   exactly when the specification table (written below from the property text) says so - prescribed
+   order, once each, only from the session context the fail-safe is bound to.
+2. **Coherence invariant** (`coherent_always`): after every fault-free history node and store agree on
+   every fabric except the one the fail-safe is armed for (and on the networks while idle).
+3. **Rollback restores** (`rollback_restores`, `restart_restores`): when the fail-safe ends by expiry
+   (timer, ArmFailSafe(0), RevokeCommissioning - all three run `expire`) or by a restart, node and
+   store agree on every fabric and on the networks, and the rollback itself writes no fabric / network key.
+4. **Commit is joint** (`commit_is_joint`): after an acknowledged CommissioningComplete node and store
+   agree and the fail-safe is disarmed.
+
+Hypotheses of 2-4 (`SafeHist`): no injected store fault and AddNOC over a not yet promoted PASE
+session.  Both exclusions are real: see the open findings `C08-complete-not-atomic` and
+`C08-failsafe-context-switch`; the full statements are kept as `C08_full_*`.
+-/
+namespace C08
+open Admin
+
+
+/-! ## specification of the credential commands (from the property text) -/
+
+/-- the session context the command arrives in is the one the fail-safe is bound to -/
+def inContext (n : Node) (mode : Mode) : Bool :=
+  match n.fs with
+  | none => false
+  | some a => a.fab == mode.fab
+
+def flagsOf (n : Node) : Flags :=
+  match n.fs with
+  | none => {}
+  | some a => a.flags
+
+def specCsr (n : Node) (mode : Mode) (upd : Bool) : Bool :=
+  inContext n mode && !((flagsOf n).addCsr || (flagsOf n).updCsr) && (!upd || mode.isCase)
+
+def specRoot (n : Node) (mode : Mode) : Bool :=
+  inContext n mode && !(flagsOf n).root
+
+theorem csr_accept_iff (cfg : Cfg) (n : Node) (sid s : Nat) (mode : Mode) (upd : Bool) :
+    (sessOp cfg n sid mode (.csr s upd)).2.accepted = true ↔ specCsr n mode upd = true := by
+  unfold sessOp specCsr inContext flagsOf checkArmed checkState
+  cases hfs : n.fs with
+  | none => simp [Status.accepted]
+  | some a =>
+    by_cases h1 : a.fab = mode.fab <;> by_cases h2 : a.flags.addCsr <;> by_cases h3 : a.flags.updCsr <;>
+      cases upd <;> cases hm : mode.isCase <;> simp_all [ok, Status.accepted]
+
+theorem root_accept_iff (cfg : Cfg) (n : Node) (sid s ca : Nat) (mode : Mode) :
+    (sessOp cfg n sid mode (.root s ca)).2.accepted = true ↔ specRoot n mode = true := by
+  unfold sessOp specRoot inContext flagsOf checkArmed checkState
+  cases hfs : n.fs with
+  | none => simp [Status.accepted]
+  | some a =>
+    by_cases h1 : a.fab = mode.fab <;> by_cases h2 : a.flags.root <;> simp_all [ok, Status.accepted]
+
+def freeIdx (n : Node) : Option Nat :=
+  if maxIdx n.fabrics < 254 then some (maxIdx n.fabrics + 1)
+  else (List.range 255).find? (fun i => 1 ≤ i && !hasFabric n i)
+
+def specAddNoc (cfg : Cfg) (n : Node) (mode : Mode) (ca fid subj : Nat) : Bool :=
+  inContext n mode
+  && ((flagsOf n).root && (flagsOf n).addCsr)
+  && !((flagsOf n).addNoc || (flagsOf n).updCsr || (flagsOf n).updNoc)
+  && isNodeId subj && decide (ca = n.staged)
+  && !(n.fabrics.any (fun f => f.fid = fid && f.ca = n.staged))
+  && (freeIdx n).isSome && decide (n.fabrics.length < cfg.maxFabrics)
+  && (match mode with
+      | .pase 0 => true
+      | .pase _ => false
+      | .case _ => true)
+
+def specUpdNoc (n : Node) (mode : Mode) : Bool :=
+  inContext n mode && mode.isCase && (flagsOf n).updCsr
+  && !((flagsOf n).root || (flagsOf n).addNoc || (flagsOf n).addCsr || (flagsOf n).updNoc)
+  && hasFabric n mode.fab
+
+theorem updnoc_accept_iff (cfg : Cfg) (n : Node) (sid s node ser : Nat) (mode : Mode) :
+    (sessOp cfg n sid mode (.updnoc s node ser)).2.accepted = true ↔ specUpdNoc n mode = true := by
+  unfold sessOp specUpdNoc inContext flagsOf checkArmed checkState getFabric hasFabric
+  cases hfs : n.fs with
+  | none => simp [Status.accepted]
+  | some a =>
+    by_cases h1 : a.fab = mode.fab
+    · cases hm : mode.isCase
+      · simp_all [ok, Status.accepted]
+      · cases hf : n.fabrics.find? (fun f => decide (f.idx = mode.fab)) with
+        | none =>
+          have : n.fabrics.any (fun f => decide (f.idx = mode.fab)) = false := by
+            simpa [List.find?_eq_none] using hf
+          by_cases h2 : a.flags.updCsr <;> by_cases h3 : a.flags.root <;> by_cases h4 : a.flags.addNoc <;>
+            by_cases h5 : a.flags.addCsr <;> by_cases h6 : a.flags.updNoc <;> simp_all [ok, Status.accepted]
+        | some f =>
+          have : n.fabrics.any (fun f => decide (f.idx = mode.fab)) = true := by
+            have := List.find?_some hf
+            have hm := List.mem_of_find?_eq_some hf
+            simp only [List.any_eq_true]
+            exact ⟨f, hm, this⟩
+          by_cases h2 : a.flags.updCsr <;> by_cases h3 : a.flags.root <;> by_cases h4 : a.flags.addNoc <;>
+            by_cases h5 : a.flags.addCsr <;> by_cases h6 : a.flags.updNoc <;> simp_all [ok, Status.accepted]
+    · simp_all [ok, Status.accepted]
+theorem addnoc_accept_iff (cfg : Cfg) (n : Node) (sid s ca fid node subj ser : Nat) (mode : Mode) :
+    (sessOp cfg n sid mode (.addnoc s ca fid node subj ser)).2.accepted = true ↔
+      specAddNoc cfg n mode ca fid subj = true := by
+  unfold sessOp specAddNoc inContext flagsOf checkArmed checkState freeIdx
+  cases hfs : n.fs with
+  | none => simp [Status.accepted]
+  | some a =>
+    cases mode with
+    | pase k =>
+      cases k <;> simp only [Mode.fab] <;> repeat' split
+      all_goals simp_all [Status.accepted]
+      all_goals grind
+    | case k =>
+      simp only [Mode.fab] <;> repeat' split
+      all_goals simp_all [Status.accepted]
+      all_goals grind
+
+/-! ## gating corollaries -/
+
+/-- a credential command is accepted only from the session context the fail-safe is bound to -/
+theorem only_failsafe_context (cfg : Cfg) (n : Node) (sid : Nat) (mode : Mode) (op : Op)
+    (hop : (∃ s u, op = .csr s u) ∨ (∃ s c, op = .root s c) ∨
+           (∃ s c f nd a r, op = .addnoc s c f nd a r) ∨ (∃ s nd r, op = .updnoc s nd r))
+    (hacc : (sessOp cfg n sid mode op).2.accepted = true) : inContext n mode = true := by
+  rcases hop with ⟨s, u, rfl⟩ | ⟨s, c, rfl⟩ | ⟨s, c, f, nd, a, r, rfl⟩ | ⟨s, nd, r, rfl⟩
+  · have := (csr_accept_iff cfg n sid s mode u).mp hacc
+    simp only [specCsr, Bool.and_eq_true] at this; exact this.1.1
+  · have := (root_accept_iff cfg n sid s c mode).mp hacc
+    simp only [specRoot, Bool.and_eq_true] at this; exact this.1
+  · have := (addnoc_accept_iff cfg n sid s c f nd a r mode).mp hacc
+    simp only [specAddNoc, Bool.and_eq_true] at this; exact this.1.1.1.1.1.1.1.1
+  · have := (updnoc_accept_iff cfg n sid s nd r mode).mp hacc
+    simp only [specUpdNoc, Bool.and_eq_true] at this; exact this.1.1.1.1
+
+/-- without an armed fail-safe no credential command is accepted -/
+theorem needs_armed_failsafe (n : Node) (mode : Mode) (h : n.fs = none) : inContext n mode = false := by
+  simp [inContext, h]
+
+example : ∃ n mode, inContext n mode = true :=
+  ⟨{ fs := some { fab := 0, flags := {}, timeout := 60, armedAt := 0 } }, .pase 0, by decide⟩
+
+/-- an accepted CSRRequest records itself in the fail-safe context ... -/
+theorem csr_sets_flag (cfg : Cfg) (n : Node) (sid s : Nat) (mode : Mode) (upd : Bool)
+    (hacc : (sessOp cfg n sid mode (.csr s upd)).2.accepted = true) :
+    ((flagsOf (sessOp cfg n sid mode (.csr s upd)).1).addCsr || (flagsOf (sessOp cfg n sid mode (.csr s upd)).1).updCsr) = true ∧
+    inContext (sessOp cfg n sid mode (.csr s upd)).1 mode = true := by
+  have hspec := (csr_accept_iff cfg n sid s mode upd).mp hacc
+  unfold sessOp flagsOf inContext checkArmed checkState at *
+  unfold specCsr inContext flagsOf at hspec
+  cases hfs : n.fs with
+  | none => simp [hfs] at hspec
+  | some a =>
+    by_cases h1 : a.fab = mode.fab <;> by_cases h2 : a.flags.addCsr <;> by_cases h3 : a.flags.updCsr <;>
+      cases upd <;> cases hm : mode.isCase <;> simp_all [ok, Status.accepted]
+
+/-- ... so that a second CSRRequest in the same context is rejected (**once**) -/
+theorem csr_once (cfg : Cfg) (n : Node) (sid s s' : Nat) (mode : Mode) (upd upd' : Bool)
+    (hacc : (sessOp cfg n sid mode (.csr s upd)).2.accepted = true) :
+    (sessOp cfg (sessOp cfg n sid mode (.csr s upd)).1 sid mode (.csr s' upd')).2.accepted = false := by
+  have h := (csr_sets_flag cfg n sid s mode upd hacc).1
+  cases hacc2 : (sessOp cfg (sessOp cfg n sid mode (.csr s upd)).1 sid mode (.csr s' upd')).2.accepted with
+  | false => rfl
+  | true =>
+    have := (csr_accept_iff cfg _ sid s' mode upd').mp hacc2
+    simp only [specCsr, Bool.and_eq_true, Bool.not_eq_true'] at this
+    rw [this.1.2] at h
+    exact absurd h (by decide)
+
+/-- after an accepted AddTrustedRootCertificate a second one is rejected (**once**) -/
+theorem root_once (cfg : Cfg) (n : Node) (sid s s' ca ca' : Nat) (mode : Mode)
+    (hacc : (sessOp cfg n sid mode (.root s ca)).2.accepted = true) :
+    (sessOp cfg (sessOp cfg n sid mode (.root s ca)).1 sid mode (.root s' ca')).2.accepted = false := by
+  have hspec := (root_accept_iff cfg n sid s ca mode).mp hacc
+  cases hacc2 : (sessOp cfg (sessOp cfg n sid mode (.root s ca)).1 sid mode (.root s' ca')).2.accepted with
+  | false => rfl
+  | true =>
+    have h2 := (root_accept_iff cfg _ sid s' ca' mode).mp hacc2
+    exfalso
+    unfold sessOp specRoot inContext flagsOf checkArmed checkState at *
+    cases hfs : n.fs with
+    | none => simp [hfs] at hspec
+    | some a =>
+      by_cases h1 : a.fab = mode.fab <;> by_cases h3 : a.flags.root <;> simp_all [ok]
+
+/-! ## coherence, rollback, commit -/
+
+/-- **Coherence invariant**: from the factory-fresh node, after every fault-free history, node and
+store agree on every fabric except the one the fail-safe is armed for, and on the networks while no
+fail-safe is armed. -/
+theorem coherent_always (cfg : Cfg) (ops : List Op) (hs : SafeHist cfg {} ops) :
+    Coh (run cfg {} ops) :=
+  (run_coh cfg ops {} coh_init rfl hs).1
+
+/-- **Rollback restores** (expiry by timer, `ArmFailSafe(0)`, `RevokeCommissioning` - all of them run
+`FailSafe::expire` followed by the purge of the resumption cache): after a fault-free history, if the
+expiry succeeds then the fail-safe is disarmed, node and store agree on EVERY fabric (identity,
+NOC, ACL, groups, label) and on the networks, and the rollback wrote no fabric / network key - the
+node is back to what the store held, i.e. to what had been committed. -/
+theorem rollback_restores (cfg : Cfg) (ops : List Op) (hs : SafeHist cfg {} ops) (a : Armed) (exp : Option Nat)
+    (harmed : (run cfg {} ops).fs = some a)
+    (hok : (expireAndPurge cfg (run cfg {} ops) a exp).2 = none) :
+    Agree (expireAndPurge cfg (run cfg {} ops) a exp).1 ∧
+    (expireAndPurge cfg (run cfg {} ops) a exp).1.fs = none ∧
+    (expireAndPurge cfg (run cfg {} ops) a exp).1.kv.fabs = (run cfg {} ops).kv.fabs ∧
+    (expireAndPurge cfg (run cfg {} ops) a exp).1.kv.nets = (run cfg {} ops).kv.nets := by
+  have ⟨hc, hf⟩ := run_coh cfg ops {} coh_init rfl hs
+  have ⟨h1, h2, _, h4, h5⟩ := expireAndPurge_agree cfg _ a exp hc harmed hf hok
+  exact ⟨h1, h2, h4, h5⟩
+
+/-- the expiry can only fail when the fabric table is full at the moment the stored copy is put back
+(which cannot happen after the slot was just freed); in particular it does NOT fail when the
+fail-safe's fabric was removed meanwhile (fixed finding `C08-removefabric-then-expiry-stuck`) -/
+theorem expire_succeeds_when_fabric_gone (cfg : Cfg) (n : Node) (a : Armed) (exp : Option Nat)
+    (hgone : n.kv.fabs.find? (fun f => f.idx = a.fab) = none) :
+    (expireArmed cfg n a exp).2.1 = none := by
+  unfold expireArmed rollbackFabrics
+  by_cases h0 : a.fab = 0 <;> simp [h0, hgone]
+
+/-- **Restart restores**: a restart (or a crash, which restarts from an earlier store) comes up with
+exactly the stored fabrics and networks, no fail-safe and no session. -/
+theorem restart_restores (n : Node) (kv : KV) (hist : List KV) :
+    Agree (restartFrom n kv hist) ∧ (restartFrom n kv hist).fs = none ∧ (restartFrom n kv hist).sessions = [] := by
+  have ⟨h1, h2, _, _, _, h6⟩ := restartFrom_agree n kv hist
+  exact ⟨h1, h2, h6⟩
+
+/-- **Commit is joint**: after a fault-free history, an acknowledged CommissioningComplete leaves the
+fail-safe disarmed and node and store in agreement on every fabric and on the networks. -/
+theorem commit_is_joint (cfg : Cfg) (ops : List Op) (hs : SafeHist cfg {} ops) (sid s : Nat) (mode : Mode)
+    (hack : (sessOp cfg (run cfg {} ops) sid mode (.complete s)).2 = .ok) :
+    Agree (sessOp cfg (run cfg {} ops) sid mode (.complete s)).1 ∧
+    (sessOp cfg (run cfg {} ops) sid mode (.complete s)).1.fs = none := by
+  have ⟨hc, hf⟩ := run_coh cfg ops {} coh_init rfl hs
+  exact (sessOp_complete_agree cfg _ sid s mode hc hf).2 hack
+
+/-- the commands of the commissioning in progress never write to the store: CSRRequest,
+AddTrustedRootCertificate, AddNOC, UpdateNOC, network changes and (re-)arming leave every key alone
+(what they change lives in memory until CommissioningComplete) -/
+theorem commissioning_ops_keep_store (cfg : Cfg) (n : Node) (sid : Nat) (mode : Mode) (op : Op)
+    (hop : (∃ s u, op = .csr s u) ∨ (∃ s c, op = .root s c) ∨
+           (∃ s c f nd a r, op = .addnoc s c f nd a r) ∨ (∃ s nd r, op = .updnoc s nd r) ∨
+           (∃ s v, op = .net s v) ∨ (∃ s v, op = .rmnet s v) ∨ (∃ s t, op = .arm s t ∧ t ≠ 0)) :
+    (sessOp cfg n sid mode op).1.kv = n.kv ∧ (sessOp cfg n sid mode op).1.hist = n.hist := by
+  rcases hop with ⟨s, u, rfl⟩ | ⟨s, c, rfl⟩ | ⟨s, c, f, nd, a, r, rfl⟩ | ⟨s, nd, r, rfl⟩ | ⟨s, v, rfl⟩ | ⟨s, v, rfl⟩ | ⟨s, t, rfl, ht⟩
+  all_goals simp only [sessOp]
+  all_goals repeat' split
+  all_goals first | exact ⟨rfl, rfl⟩ | (exfalso; omega) | skip
+
+/-- an ACL write of the fabric the fail-safe is armed for is deferred: the store is not touched -/
+theorem deferred_acl_keeps_store (cfg : Cfg) (n : Node) (sid s v : Nat) (mode : Mode)
+    (harm : armedFor n mode.fab = true) : (sessOp cfg n sid mode (.acl s v)).1.kv = n.kv := by
+  simp only [sessOp]
+  split
+  · rfl
+  · cases hg : getFabric n mode.fab with
+    | none => rfl
+    | some f =>
+      have hidx := getFabric_idx hg
+      simp only []
+      split
+      · rfl
+      · have h2 : armedFor (setFabric n { f with acl := f.acl ++ [v] }) f.idx = true := by
+          rw [hidx]; exact harm
+        simp only [h2, if_true, ok]
+        rfl
+
+/-- no operation of the list writes a fabric key or the networks key -/
+def StoreQuiet (cfg : Cfg) : Node → List Op → Prop
+  | _, [] => True
+  | n, op :: rest =>
+    (step cfg n op).1.kv.fabs = n.kv.fabs ∧ (step cfg n op).1.kv.nets = n.kv.nets ∧
+    StoreQuiet cfg (step cfg n op).1 rest
+
+theorem storeQuiet_run (cfg : Cfg) (ops : List Op) : ∀ (n : Node), StoreQuiet cfg n ops →
+    (run cfg n ops).kv.fabs = n.kv.fabs ∧ (run cfg n ops).kv.nets = n.kv.nets := by
+  induction ops with
+  | nil => intro n _; exact ⟨rfl, rfl⟩
+  | cons op rest ih =>
+    intro n h
+    have ⟨h1, h2⟩ := ih _ h.2.2
+    show (run cfg (step cfg n op).1 rest).kv.fabs = n.kv.fabs ∧ (run cfg (step cfg n op).1 rest).kv.nets = n.kv.nets
+    exact ⟨by rw [h1, h.1], by rw [h2, h.2.1]⟩
+
+/-- **Exactly what they were before arming.**  Take a quiescent state `q` reached by a fault-free
+history, then any fault-free history `ops1` (arming, credential commands, deferred writes, network
+changes, session establishments, time …) during which nothing is committed to the fabric / network
+keys, then a successful expiry: every fabric record (identity, NOC, ACL, groups, label) and the
+networks of the node are exactly those of `q`, and the fail-safe is idle. -/
+theorem rollback_restores_state_before_arming (cfg : Cfg) (ops0 ops1 : List Op)
+    (hs0 : SafeHist cfg {} ops0) (hidle : (run cfg {} ops0).fs = none)
+    (hs1 : SafeHist cfg (run cfg {} ops0) ops1) (hq : StoreQuiet cfg (run cfg {} ops0) ops1)
+    (a : Armed) (exp : Option Nat)
+    (harmed : (run cfg (run cfg {} ops0) ops1).fs = some a)
+    (hok : (expireAndPurge cfg (run cfg (run cfg {} ops0) ops1) a exp).2 = none) :
+    (∀ i, i ≠ 0 → getFabric (expireAndPurge cfg (run cfg (run cfg {} ops0) ops1) a exp).1 i =
+                  getFabric (run cfg {} ops0) i) ∧
+    ((expireAndPurge cfg (run cfg (run cfg {} ops0) ops1) a exp).1.nets,
+     (expireAndPurge cfg (run cfg (run cfg {} ops0) ops1) a exp).1.managed) =
+      ((run cfg {} ops0).nets, (run cfg {} ops0).managed) ∧
+    (expireAndPurge cfg (run cfg (run cfg {} ops0) ops1) a exp).1.fs = none := by
+  have ⟨hc0, hf0⟩ := run_coh cfg ops0 {} coh_init rfl hs0
+  have hag0 := agree_of_coh_idle hc0 hidle
+  have ⟨hc1, hf1⟩ := run_coh cfg ops1 _ hc0 hf0 hs1
+  have ⟨hk1, hk2⟩ := storeQuiet_run cfg ops1 _ hq
+  have ⟨hag, hfs, _, h4, h5⟩ := expireAndPurge_agree cfg _ a exp hc1 harmed hf1 hok
+  refine ⟨fun i hi => ?_, ?_, hfs⟩
+  · rw [hag.1 i hi, hag0.1 i hi]
+    simp only [kvF, h4, hk1]
+  · rw [hag.2, hag0.2]
+    simp only [kvNets, h5, hk2]
+
+instance decStoreQuiet (cfg : Cfg) : (n : Node) → (ops : List Op) → Decidable (StoreQuiet cfg n ops)
+  | _, [] => isTrue trivial
+  | n, op :: rest =>
+    have := decStoreQuiet cfg (step cfg n op).1 rest
+    by simp only [StoreQuiet]; infer_instance
+
+/-- the hypotheses of `rollback_restores_state_before_arming` are satisfiable: a commissioned node
+(`ops0`), then ArmFailSafe over CASE, a deferred ACL write, CSRRequest(update), UpdateNOC, a network
+change (`ops1`) - armed, store quiet, and the expiry succeeds -/
+example :
+    let ops0 : List Op := [.boot, .pase, .arm 0 60, .csr 0 false, .root 0 1, .addnoc 0 1 5 10 100 1,
+      .caseEst 1 100 1, .complete 1]
+    let ops1 : List Op := [.arm 1 60, .acl 1 200, .csr 1 true, .updnoc 1 11 2, .net 1 3]
+    SafeHist {} {} ops0 ∧ (run {} {} ops0).fs = none ∧ SafeHist {} (run {} {} ops0) ops1 ∧
+    StoreQuiet {} (run {} {} ops0) ops1 ∧
+    (∃ a, (run {} (run {} {} ops0) ops1).fs = some a ∧
+      (expireAndPurge {} (run {} (run {} {} ops0) ops1) a none).2 = none) := by
+  refine ⟨by decide, by decide, by decide, by decide, ⟨_, rfl, by decide⟩⟩
+
+/-- the hypotheses are satisfiable: a complete commissioning is a `SafeHist` and ends in agreement -/
+example : SafeHist {} {} [.boot, .pase, .arm 0 60, .csr 0 false, .root 0 1, .addnoc 0 1 5 10 100 1,
+    .caseEst 1 100 1, .complete 1] := by
+  decide
+
+example : (run {} {} [.boot, .pase, .arm 0 60, .csr 0 false, .root 0 1, .addnoc 0 1 5 10 100 1,
+    .caseEst 1 100 1, .complete 1]).kv.fabs.length = 1 := by decide
+
+/-- The statement without the two hypotheses; NOT provable for the code as it is (open findings
+`C08-complete-not-atomic`: store faults, `C08-failsafe-context-switch`: AddNOC over CASE). -/
+def C08_full_coherent_always : Prop :=
+  ∀ (cfg : Cfg) (ops : List Op), (run cfg {} ops).fs = none → Agree (run cfg {} ops)
+
+end C08
